@@ -20,7 +20,7 @@ ASSUMPTIONS = [
     "coinbase transaction and pycryptodome Keccak-256 (none of them the code under test's)",
 ]
 REQUIRED_LABELS = {t: ["advance", "ancestor", "asked-brothers>=2", "multi-chunk-header",
-                       "stop-early", "final:partial", "final:total", "fields:17", "fields:18",
+                       "stop-early", "history", "same-hash-other-coinbase", "final:partial", "final:total", "fields:17", "fields:18",
                        "fields:19", "fields:20", "code:0", "code:1"]
                    for t in ("quick", "thorough")}
 
@@ -49,6 +49,38 @@ def block(draw, kinds, big_cb):
 
 @st.composite
 def cases(draw, tier):
+    """1..2 block requests against ONE manager and device."""
+    first = draw(one_request(tier))
+    seq = [first]
+    k = draw(st.integers(0, 5))
+    if k == 0:
+        seq.append(draw(one_request(tier)))
+    elif k == 1 and first["kind"] == "advance":
+        # a related request: some of the same headers again (same hash-relevant fields) with
+        # another merkle proof / coinbase transaction, as a retry by another miner would look
+        nxt = draw(one_request(tier))
+        nxt["kind"] = "advance"
+        blocks = []
+        for b in first["blocks"][:draw(st.integers(1, len(first["blocks"])))]:
+            nb = {"fields": list(b["fields"]), "full_cb": b["full_cb"]}
+            if draw(st.booleans()):
+                full = draw(st.binary(min_size=65, max_size=300))
+                kk = draw(st.integers(0, len(full) // 64))
+                nb["fields"][-1] = refs.compress_coinbase(full, kk)
+                nb["full_cb"] = full
+            if draw(st.booleans()):
+                nb["fields"][-2] = draw(st.binary(max_size=96))
+            blocks.append(nb)
+        nxt["blocks"] = blocks
+        nxt["bros"] = [[] for _ in blocks]
+        nxt["ask"] = [draw(st.booleans()) for _ in blocks]
+        nxt["stop"] = None
+        seq.append(nxt)
+    return {"seq": seq}
+
+
+@st.composite
+def one_request(draw, tier):
     thorough = tier == "thorough"
     kind = draw(st.sampled_from(["advance", "advance", "ancestor"]))
     nb = draw(st.integers(1, 30 if thorough and draw(st.integers(0, 9)) == 0 else 6))
@@ -99,15 +131,31 @@ def meta(b, adv):
     return m
 
 
-def run_case(c):
-    adv = c["kind"] == "advance"
+def run_case(h):
+    seq = h["seq"] if "seq" in h else [h]
     w = mw.default_world()
+    p = mw.stack(w)
+    labels = ["history"] if len(seq) >= 2 else []
+    if len(seq) >= 2 and seq[0]["kind"] == seq[1]["kind"] == "advance" and any(
+            bhash(a) == bhash(b) and a["fields"] != b["fields"]
+            for a in seq[0]["blocks"] for b in seq[1]["blocks"]):
+        labels.append("same-hash-other-coinbase")
+    nt = False
+    for c in seq:
+        out = run_one(c, w, p)
+        labels.extend(out.labels)
+        nt = nt or out.nontrivial
+    return Out(labels, nt)
+
+
+def run_one(c, w, p):
+    adv = c["kind"] == "advance"
+    n_rx = len(w.adv_rx)
     w.policy = Policy(c["policy"])
     nb = len(c["blocks"])
     w.adv_plan = {"final": c["final"], "success_after": c["stop"], "max_brothers": 255}
     if adv:
         w.adv_plan["brothers"] = {str(i): a for i, a in enumerate(c["ask"])}
-    p = mw.stack(w)
     if adv:
         req = {"command": "advanceBlockchain", "version": 5,
                "blocks": [enc(b).hex() for b in c["blocks"]],
@@ -127,8 +175,9 @@ def run_case(c):
         raise Violation("reply-vs-device-result", "device reported %s success, reply %r" % (
             "total" if total else "partial", rep))
     labels.append("code:%d" % exp_code)
-    if len(w.adv_rx) != 1:
-        raise Violation("sessions", "device completed %d block sessions" % len(w.adv_rx))
+    if len(w.adv_rx) - n_rx != 1:
+        raise Violation("sessions", "device completed %d block sessions" % (len(w.adv_rx) -
+                                                                            n_rx))
     rx = w.adv_rx[-1]
     if rx["n"] != nb:
         raise Violation("announced-count", "announced %d, client sent %d" % (rx["n"], nb))
